@@ -178,6 +178,7 @@ func installSendHook() {
 }
 
 var offeredCalls int64
+var storm int32
 
 func v2api(sk *skchia.SpaceKeeper) *api {
 	var self *api
@@ -398,6 +399,9 @@ func scenario(rng *vh.Rng, idx int, kind string, base string) Rec {
 			c := 0
 			ctl.CreatePlotted = func(string) bool { c++; return c <= np }
 			ctl.FreeOutcome = func(d *kp.FakeDB) (string, time.Duration) {
+				if atomic.LoadInt32(&storm) == 1 {
+					return "abort", 0 // (storm phase: every plot gives up at once)
+				}
 				return rng.PickS("complete", "complete", "abort", "error"), time.Duration(rng.Intn(3000)) * time.Microsecond
 			}
 		}
@@ -430,6 +434,34 @@ func scenario(rng *vh.Rng, idx int, kind string, base string) Rec {
 		G, M := rng.Range(4, 16), rng.Range(20, 60)
 		rec.Params = fmt.Sprintf("spaces=%d bl=%d goroutines=%d calls=%d external_unlinks=%v", n, bl, G, M, a.plotDir != "")
 		sk.Start()
+		if kind == "stress-fake" && idx%3 == 2 && len(ids) > 0 {
+			// plot/stop storm on one space: one caller asks for the plot over and over, three cancel it over and over, every
+			// plot gives up at once - the plotter's queue is emptied under its feet thousands of times
+			atomic.StoreInt32(&storm, 1)
+			sid := ids[0]
+			stopAt := time.Now().Add(300 * time.Millisecond)
+			var swg sync.WaitGroup
+			for g := 0; g < 4; g++ {
+				g := g
+				swg.Add(1)
+				go func() {
+					defer swg.Done()
+					for time.Now().Before(stopAt) {
+						if g == 0 {
+							tr.do("ActOnWorkSpace(plot) (storm)", func() { a.act(sid, 0) })
+						} else {
+							tr.do("ActOnWorkSpace(stop) (storm)", func() { a.act(sid, 2) })
+						}
+					}
+				}()
+			}
+			ok := waitAll(&rec, tr, &swg)
+			atomic.StoreInt32(&storm, 0)
+			rec.Params += " plot_stop_storm=300ms"
+			if !ok {
+				break
+			}
+		}
 		if kind == "stress-fake" && idx%3 == 1 {
 			// "however many requests are outstanding": 40-80 streaming proof queries arrive at the same moment, each
 			// table lookup takes a millisecond or two (more queries in flight than any worker pool of the keeper has workers)
